@@ -92,6 +92,13 @@ CHECKS["C12"] = dict(
   note="Trusts yref. Attributes of implicit case nodes are not judged; config below operations is not generated.",
   design="DESIGN.md section 4, C12")
 
+CHECKS["C11"] = dict(
+  category="exploration",
+  technique="rapid generation of identity derivation graphs over several modules with a reference transitive closure; repeated runs and load-order permutations as a metamorphic relation for the fixed-order clause; planted undefined bases and cycles",
+  text="Random derivation DAGs (up to 10 identities from a five-name pool, multiple bases, diamonds, cross-module edges through arbitrary prefixes, submodules) with identityref leaves and typedefs are loaded in three load orders, six times each. Values of every identity must equal, as a set of (module, name), the reference closure, contain no duplicate and not the identity itself, and be the same ordered list in every run and order; identityref types must point at the very identity object. Planted undefined local/remote bases, unknown prefixes and cycles of length 1-3 must give an error (a stack overflow kills the worker and is attributed by the driver).",
+  note="Trusts yref.IdentityClosure. Order dependence is only seen if the runtime iterates a map differently in one of the 18 runs of a case (probability per tie and run about 1/8 with Go 1.23 maps).",
+  design="DESIGN.md section 4, C11")
+
 PENDING = {}
 
 def main():
